@@ -262,8 +262,11 @@ func RunScript(w *trace.W, idx int, sc Script, opts Options) error {
 		}
 	})
 	defer gohlslib.VerifSetHook(nil)
+	closed := false
 	defer func() {
-		r.m.Close()
+		if !closed {
+			r.m.Close()
+		}
 		r.s.Quiesce(500 * time.Millisecond)
 		r.s.StopAll()
 	}()
@@ -276,6 +279,17 @@ func RunScript(w *trace.W, idx int, sc Script, opts Options) error {
 			break // the statement covers all-successful sequences; an error ends the trace (C18 judges it)
 		}
 	}
+	// Close after the last Write: every file created in Directory must be gone, later requests must return
+	r.m.Close()
+	closed = true
+	ce := trace.M{"ev": "closed", "files": -1}
+	if cfg.Disk {
+		es, _ := os.ReadDir(r.dir)
+		ce["files"] = len(es)
+	}
+	rec := r.get(r.streams[0].id + "_stream.m3u8")
+	ce["plst"] = rec.Code
+	w.Emit(ce)
 	w.Emit(trace.M{"ev": "end"})
 	return nil
 }
